@@ -208,3 +208,89 @@ def render_rules(chk, m, rule_id, aspect):
             t.attrs['level'] = lv['COMMAND_LEVEL']
         return parent, renderer
     case('the document node renders only its document-level child', top, 'returns %r files []' % 'R(em)')
+
+
+# ---------------------------------------------------------------------------
+class ProtocolHooks(D.DomHooks):
+    """Renderer.render on a heap: the steps that matter are events (recognised by the function a call resolves to, not by the name at
+    the call site); each event carries whether the renderable mix-in is in place and whether Node.renderer is set at that moment."""
+    KEY = '__cls:plasTeX.DOM.Node.renderer'
+
+    def _event(self, state, what):
+        mixed = state.env.get('__mixed', 0)
+        ev = state.env.get('__protocol', ())
+        state.env['__protocol'] = ev + ('%s[%s%s]' % (what, 'mixed' if mixed > 0 else 'plain', ',renderer' if self.KEY in state.env else ''),)
+
+    def should_inline(self, fname, node, info):
+        if info is not None and info.name in ('mixin', 'unmix', 'cacheFilenames', 'cleanup', 'render') and getattr(node, 'name', '') == info.name:
+            return False
+        return A.private_only(fname, node, info)
+
+    def call(self, interp, node, fname, args, kwargs, state):
+        if fname == 'type' and len(args) == 1 and isinstance(args[0], A.Obj) and isinstance(args[0].cls, M.ClassInfo):
+            return args[0].cls
+        info = interp.resolve_callee(node, state)
+        if info is not None and info.cls is None and info.name in ('mixin', 'unmix'):
+            state.env['__mixed'] = state.env.get('__mixed', 0) + (1 if info.name == 'mixin' else -1)
+            self._event(state, '%s(%s, %s)' % (info.name, getattr(args[0], 'name', args[0]) if args else '?',
+                                               getattr(args[1], 'name', args[1]) if len(args) > 1 else '?'))
+            return A.NONE
+        if info is not None and info.cls is not None and info.name == 'cacheFilenames':
+            self._event(state, 'names')
+            return A.NONE
+        if info is not None and info.cls is not None and info.name == 'cleanup':
+            self._event(state, 'cleanup')
+            return A.NONE
+        if isinstance(node.func, ast.Name):
+            fv = interp.ev(node.func, state)          # (the imager classes are imported inside render under local names)
+            if isinstance(fv, M.ClassInfo) and fv.module.name.startswith('plasTeX.Imagers'):
+                # an imager: a scripted object (its constructor starts external programs)
+                return A.Obj('imager:%s' % fv.name, {'fileExtension': '.png', 'imageAttrs': '', 'imageUnits': ''}, cls=fv)
+        if fname == 'str' and len(args) == 1 and isinstance(args[0], A.Obj) and args[0].label == 'document':
+            self._event(state, 'render')
+            return 'rendered'
+        if fname == 'the.context.persist':
+            self._event(state, 'persist(%s)' % ', '.join(a if isinstance(a, str) else 'TOP' for a in args))
+            return A.NONE
+        if re.match(r'(status|log)\.\w+$', fname):
+            return A.NONE
+        if isinstance(node.func, ast.Attribute) and node.func.attr in ('close', 'verify'):
+            return A.NONE if node.func.attr == 'close' else True
+        return D.DomHooks.call(self, interp, node, fname, args, kwargs, state)
+
+
+def protocol(m):
+    """Renderer.render interpreted on a document whose configuration asks for no imagers; one entry per path:
+    (outcome, events in order, Node.renderer still set at the end).  Raises D.Imprecise when the run is not determined."""
+    Rend = m.cls(REN, 'Renderer')
+    fn = m.find_method(Rend, 'render')
+    need(fn is not None, 'Renderer.render not found')
+    config = {'files': {'split-level': 2, 'filename': 'index [$id, sect$num(4)]', 'bad-chars': ': ', 'bad-chars-sub': '-'},
+              'images': {'imager': 'none', 'vector-imager': 'none'}, 'general': {'renderer': 'RENDERER-KEY'}}
+    ctx = A.Obj('context', {'persist': A.Sym('extfunc:the.context.persist', truthy=True)})
+    document = A.Obj('document', {'config': config, 'userdata': {'jobname': 'job', 'working-dir': '/w'}, 'context': ctx})
+    renderer = A.Obj('renderer', {'imager': None, 'vectorImager': None, 'files': {}, '__dict': {'section': 1}}, cls=Rend)
+    h = ProtocolHooks(m, Rend)
+    it = A.Interp(model=m, scope=fn, hooks=h, max_iter=6, exc_edges=False, inline=6, heap=True, precise_exc=True, max_states=20000)
+    outs = it.run_function(fn, env={'self': renderer, 'document': document, 'postProcess': None})
+    if it.imprecise:
+        raise D.Imprecise('; '.join(sorted(set(it.imprecise))[:3]))
+    if it.unknown_branches:
+        raise D.Imprecise('the outcome of a test is not determined on this heap: ' + '; '.join(sorted(set(it.unknown_branches))[:3]))
+    return fn, {(kind if kind != 'raise' else 'raise %s' % v, s.env.get('__protocol', ()), ProtocolHooks.KEY in s.env) for kind, s, v in outs}
+
+
+def protocol_paths(m):
+    """protocol(m), once per model: (render function, paths) or (render function, reason string) when the run is not determined."""
+    cache = m.__dict__.setdefault('_render_protocol', {})
+    if 'v' not in cache:
+        try:
+            cache['v'] = protocol(m)
+        except D.Imprecise as e:
+            cache['v'] = (m.find_method(m.cls(REN, 'Renderer'), 'render'), str(e))
+    return cache['v']
+
+
+def event_states(events, prefix):
+    """The [..] state of every event whose name starts with prefix."""
+    return tuple(e[e.rindex('['):] for e in events if e.startswith(prefix))
